@@ -1,9 +1,13 @@
 SPECIFICATION Spec
 CONSTANTS
-  Kind = {"send", "data", "pour", "fail", "vest", "stake", "burn", "gov2_globals", "gov2_miner", "gov2_storage", "gov2_vesting", "gov2_zcn", "gov2_faucet", "govok"}
+  Kind = {"send", "data", "pour", "fail", "vest", "stake", "burn", "gov2_globals", "gov2_miner", "gov2_storage", "gov2_vesting", "gov2_zcn", "gov2_faucet", "govok", "govpart_miner", "govok_miner", "govpart_storage", "govok_storage"}
   MultiBad = {"gov2_globals", "gov2_miner", "gov2_storage", "gov2_vesting", "gov2_zcn", "gov2_faucet"}
+  PartFail = {"govpart_miner", "govpart_storage"}
+  Saver = {"govok_miner", "govok_storage"}
+  ObjOf <- MCObjOf
   Env <- MCEnv
   MaxLen = 2
   SortedKeys = TRUE
+  IsolatedCopies = TRUE
 INVARIANT GPrint
 CHECK_DEADLOCK FALSE
